@@ -15,6 +15,7 @@ stack of ocimem / client+server hops / Select / Sub / unify / debug; iterators s
    Observed(Stream(stack, start), k) and evaluates the OciList properties on the recorded calls."""
 import json
 import os
+import threading
 import time
 
 import vlib
@@ -157,35 +158,53 @@ def canary(ctx, trace):
 
 def run(ctx):
     quick = ctx.tier == 'quick'
-    r, cfgs = tlc_mc(ctx, 'OciListMC_quick.cfg' if quick else 'OciListMC_thorough.cfg', 600 if quick else 3000,
-                     what='all configurations (stack x contents x start x page sizes x server limit x Link x stop point) as initial states')
+    td = ctx.sub('traces')
+    # The harness build and the seeded-random / large-universe cases do not depend on TLC's
+    # export: they run beside the model check.
+    side = {}
+
+    def random_cases():
+        try:
+            vh = vlib.build_harness(ctx)
+            out = []
+            nrand = 700 if quick else 6000
+            per = 2000
+            i = 0
+            while nrand > 0:
+                t = os.path.join(td, 'rand%d.ndjson' % i)
+                args = ['list', '-n', str(min(per, nrand)), '-seed', str(ctx.seed * 1000 + i), '-maxu', '24' if quick or i % 2 else '40', '-out', t]
+                if i == 0:
+                    # also universes beyond ociserver's internal page bound of 10000 (compact events)
+                    args += ['-big', '1003' if quick else '2005', '-huge']
+                vlib.run_harness(ctx, vh, args)
+                out.append(t)
+                nrand -= per
+                i += 1
+            side['vh'], side['traces'] = vh, out
+        except BaseException as e:  # re-raised in the main thread
+            side['error'] = e
+
+    th = threading.Thread(target=random_cases)
+    th.start()
+    try:
+        r, cfgs = tlc_mc(ctx, 'OciListMC_quick.cfg' if quick else 'OciListMC_thorough.cfg', 600 if quick else 3000,
+                         what='all configurations (stack x contents x start x page sizes x server limit x Link x stop point) as initial states')
+    finally:
+        th.join()
+    if 'error' in side:
+        raise side['error']
     if not cfgs:
         raise vlib.Machinery('OciListMC exported no configuration')
     # consecutive cases on the same stack share the built stack
     cfgs.sort(key=lambda c: (c['kind'], json.dumps(c['node'], sort_keys=True)))
-    vh = vlib.build_harness(ctx)
-    td = ctx.sub('traces')
+    vh = side['vh']
     cp = os.path.join(td, 'cfgs.jsonl')
     with open(cp, 'w') as f:
         for c in cfgs:
             f.write(json.dumps(c) + '\n')
-    traces = []
     t1 = os.path.join(td, 'tlc.ndjson')
     vlib.run_harness(ctx, vh, ['list', '-cfgs', cp, '-seed', str(ctx.seed), '-out', t1])
-    traces.append(t1)
-    nrand = 700 if quick else 6000
-    per = 2000
-    i = 0
-    while nrand > 0:
-        t = os.path.join(td, 'rand%d.ndjson' % i)
-        args = ['list', '-n', str(min(per, nrand)), '-seed', str(ctx.seed * 1000 + i), '-maxu', '24' if quick or i % 2 else '40', '-out', t]
-        if i == 0:
-            # also universes beyond ociserver's internal page bound of 10000 (compact events)
-            args += ['-big', '1003' if quick else '2005', '-huge']
-        vlib.run_harness(ctx, vh, args)
-        traces.append(t)
-        nrand -= per
-        i += 1
+    traces = [t1] + side['traces']
     st = stats(ctx, traces)
     ctx.log('executed %d listings (%d exported by TLC), %d page requests, %d consumer calls' % (
         st['cases'], len(cfgs), st['requests'], st['consumer_calls']))
